@@ -169,6 +169,75 @@ def r2_amounts(prog, rep):
                   function=fn, construct="entropy-amount")
 
 
+def r3_generate(prog, rep):
+    """generate(buf, buflen) = HMAC_DRBG_Generate: h = ceil(buflen / 32) steps V = HMAC(Key, V), the k-th followed by a copy of
+    min(32, buflen - 32(k-1)) bytes of V to buf + 32(k-1); then Update(empty) once, after the last step, and the counter + 1.
+    Relational (sa/poly.py) with a ghost $h counting the HMAC steps: at every copy from V into buf the offset is 32($h - 1), the
+    length is between 0 and 32, stays inside buflen, and is 32 unless it ends the buffer; at the Update after the loop
+    buflen <= 32 $h <= buflen + 31.  (An extra step with nothing to copy leaves this call's bytes right and the state handed to
+    the next call wrong.)"""
+    from .. import poly
+    from ..poly import Lin
+    u = prog.unit(UNIT)
+    ge = u.func("generate")
+    if ge is None:
+        raise cdb.AnalysisBroken("anchor missing: generate")
+    BUF = ("v", ge.params[0]["name"], ge.params[0]["id"])
+    LEN = ("v", ge.params[1]["name"], ge.params[1]["id"])
+    Hh = Lin.var(("$h",))
+
+    hm = [c for c in ge.calls("HMAC_SHA256_Buf")]
+    okh = len(hm) == 1 and [sh(norm(hm[0].arg(i))) for i in range(5)] == ["drbg.Key", "32", "drbg.V", "32", "drbg.V"] and hm[0].block.id in ge.reach_from(hm[0].block.id)
+    rep.check(okh, "R3-template", "generate: one step V = HMAC(Key, V), inside the loop", (hm[0].where if hm else ge.loc), "%d HMAC_SHA256_Buf calls" % len(hm), function="generate", construct="generate-step")
+    upd = list(ge.calls("update"))
+    oku = len(upd) == 1 and norm(upd[0].arg(1)) == ("c", 0) and upd[0].block.id not in ge.reach_from(upd[0].block.id) and bool(hm) and ge.dominates(upd[0], upd[0]) is not None
+    ctr = [e for e in ge.all_elems() if ir.step(e) and sh(ir.step(e)[1]) == "drbg.reseed_counter"]
+    oku = oku and len(ctr) == 1 and ir.step(ctr[0])[0] == "+=" and ir.step(ctr[0])[2] == ("c", 1) and ctr[0].block.id not in ge.reach_from(ctr[0].block.id)
+    rep.check(oku, "R3-template", "generate: Update(empty) once after the loop, then the reseed counter + 1", (upd[0].where if upd else ge.loc), "", function="generate", construct="generate-tail")
+    if not (okh and oku):
+        return
+    A = poly.Analysis(ge, assume=[("==", Hh, Lin.const(0))], quiet={"HMAC_SHA256_Buf", "memcpy", "update", "__assert_fail"}, unsigned_terms={LEN}, post={"HMAC_SHA256_Buf": lambda A_, call, st, cs: A_.bump(cs, ("$h",), 1)})
+    A.run()
+    copies = [c for c in ge.calls("memcpy") if sh(norm(c.arg(1))) == "drbg.V"]
+    rep.check(bool(copies), "R3-template", "generate: output is copied from V", ge.loc, "no memcpy(.., drbg.V, ..)", function="generate", construct="generate-copy")
+    for c in copies:
+        st = A.state_before(c)
+        if st is None:
+            continue
+        d = norm(c.arg(0))
+        while d[0] == "cast":
+            d = d[-1]
+        off = None
+        if d == BUF:
+            off = Lin.const(0)
+        elif d[0] == "&" and d[1][0] == "[]" and d[1][1] == BUF:
+            a = c.arg(0).strip()
+            while a is not None and a.cls in ("CStyleCastExpr", "ImplicitCastExpr", "ParenExpr"):
+                a = a.kid(0).strip() if a.kid(0) is not None else None
+            sub = a.kid(0).strip() if a is not None and a.cls == "UnaryOperator" and a.kid(0) is not None else None
+            off = A.lin(sub.kid(1), st) if sub is not None and sub.cls == "ArraySubscriptExpr" else None
+        n = A.lin(c.arg(2), st)
+        ok = off is not None and n is not None
+        why = "destination or length not followed"
+        if ok:
+            ok = A.holds(st, "==", off, Hh.scale(32) - Lin.const(32))
+            why = "the copy after step k does not go to buf + 32 (k - 1)"
+        if ok:
+            ok = A.holds(st, ">=", n, Lin.const(0)) and A.holds(st, "<=", n, Lin.const(32)) and A.holds(st, "<=", off + n, Lin.var(LEN))
+            why = "the length copied is not within 0..32 and the rest of the buffer"
+        if ok:
+            for P in (st if poly._is_disj(st) else [st]):
+                if not (A._entailsP(P, poly.cons("==", n, Lin.const(32))) or A._entailsP(P, poly.cons("==", off + n, Lin.var(LEN)))):
+                    ok = False
+                    why = "a copy of fewer than 32 bytes that does not end the buffer"
+        rep.check(ok, "R3-template", "generate: `%s` copies min(32, what remains) to buf + 32 (steps - 1)" % c.text[:44], c.where, why, function="generate", construct="generate-copy")
+    st = A.state_before(upd[0])
+    ok = st is not None and A.holds(st, ">=", Hh.scale(32), Lin.var(LEN)) and A.holds(st, "<=", Hh.scale(32), Lin.var(LEN) + Lin.const(31))
+    rep.check(ok, "R3-template", "generate: exactly ceil(buflen / 32) steps are made before the state is updated", upd[0].where,
+              "buflen <= 32 * steps <= buflen + 31 is not established here: a step too many or too few changes the state the next call starts from "
+              "(or leaves the tail of the buffer unwritten)", function="generate", construct="generate-count")
+
+
 def r2_r3(prog, rep):
     u = prog.unit(UNIT)
     ins, rs, up, ge = u.func("instantiate"), u.func("reseed"), u.func("update"), u.func("generate")
@@ -199,24 +268,8 @@ def r2_r3(prog, rep):
     rep.check(ok, "R3-template", "update: second stage iff datalen != 0; write-back unconditional", up.loc, "", function="update", construct="update-branch")
     vx = [d for e in up.all_elems() if e.cls == "DeclStmt" for d in (e.decls or []) if d["name"] in ("Vx", "K")]
     rep.check(sorted((d["name"], (u.types.get(d["ty"]) or {}).get("size")) for d in vx) == [("K", 32), ("Vx", 33)], "R2-constants", "K is 32 bytes, V||separator is 33", up.loc, "", function="update", construct="bufs")
-    # generate
-    s = [x for x in seq(ge)]
-    core = [x for x in s if x[0] in ("HMAC_SHA256_Buf", "memcpy", "update", "store+=", "store")]
-    want = [("store", "bufpos", "0"), ("HMAC_SHA256_Buf", "drbg.Key", "32", "drbg.V", "32", "drbg.V"), ("memcpy", "&buf[bufpos]", "drbg.V", "32"),
-            ("memcpy", "&buf[bufpos]", "drbg.V", "(buflen-bufpos)"), ("store+=", "bufpos", "32"), ("update", "0", "0"), ("store+=", "drbg.reseed_counter", "1")]
-    rep.check(sorted(core) == sorted(want), "R3-template", "generate: V=HMAC(K,V) per 32 bytes, copy min(32, remaining), then Update(empty), counter += 1", ge.loc, "%s" % core, function="generate", construct="generate")
-    full = [c for c in ge.calls("memcpy") if sh(norm(c.arg(2))) == "32"]
-    part = [c for c in ge.calls("memcpy") if sh(norm(c.arg(2))) == "(buflen-bufpos)"]
-    ok = len(full) == 1 and len(part) == 1
-    if ok:
-        ok = any(op == ">=" and sh(L) == "(buflen-bufpos)" and R == ("c", 32) for cond, truth in ge.edge_conds(full[0]) for op, L, R, _, _ in cond_atoms(cond, truth)) and \
-            any(op == "<" and sh(L) == "(buflen-bufpos)" and R == ("c", 32) for cond, truth in ge.edge_conds(part[0]) for op, L, R, _, _ in cond_atoms(cond, truth))
-        loop = any(op == "<" and sh(L) == "bufpos" and sh(R) == "buflen" for cond, truth in ge.edge_conds(full[0]) for op, L, R, _, _ in cond_atoms(cond, truth))
-        upd = list(ge.calls("update"))
-        hm = list(ge.calls("HMAC_SHA256_Buf"))
-        # the final Update comes after the loop (not inside it)
-        ok = ok and loop and len(upd) == 1 and upd[0].block.id not in ge.reach_from(upd[0].block.id) and len(hm) == 1 and hm[0].block.id in ge.reach_from(hm[0].block.id)
-    rep.check(ok, "R3-template", "generate: loop over bufpos < buflen, last block truncated, state update after the loop", ge.loc, "", function="generate", construct="generate-shape")
+    # generate: decided relationally, without reference to the names of its locals (r3_generate)
+    r3_generate(prog, rep)
     # reseed schedule: counter starts at 1, +1 per generate, reseed when > 256  => exactly 256 generates per seed
     ce = u.func("crypto_entropy_read")
     thr = [(op, R) for b in ce.blocks.values() if b.cond is not None for op, L, R, _, _ in cond_atoms(b.cond, True) if sh(L) == "drbg.reseed_counter"]
@@ -390,7 +443,7 @@ def run(tier):
         r2_amounts(prog, rep)
         okn = True
         for fn, names in (("instantiate", ["seed_material"]), ("reseed", ["seed_material"]), ("update", ["K", "Vx", "ctx", "data", "datalen"]),
-                          ("generate", ["buf", "buflen", "bufpos"]), ("crypto_entropy_read", ["buf", "buflen", "bytes_to_provide"])):
+                          ("generate", ["buf", "buflen"]), ("crypto_entropy_read", ["buf", "buflen", "bytes_to_provide"])):
             f = u.func(fn)
             if f is None:
                 raise cdb.AnalysisBroken("anchor missing: %s" % fn)
